@@ -1,6 +1,6 @@
 (* BasisRun.v - C08 end to end over the reals: the handles are the ones the SOURCE's generate_basis declares (as
    translated on this run), the run is the optimiser model's (whose loop bodies are proved equal to the source's in
-   SourceFacts.v); after ANY run - any configuration, any scoring oracle, any random stream - every parameter lies in the
+   SrcOpt.v); after ANY run - any configuration, any scoring oracle, any random stream - every parameter lies in the
    range C08 names for it. *)
 From Coq Require Import ZArith NArith List Bool Reals Lra Lia.
 From PV Require Import Num NumR model.Tables model.Basis model.Optimiser model.OptSpec gen.GenFns
